@@ -47,6 +47,8 @@ func init() {
 			}
 		},
 	})
+
+	Registry["C13"].ColdStart = func(c *mon.Ctx) { c13RunConc(c, c.Seed*7919+uint64(c.Shard)+1) }
 }
 
 func c13Generate(c *mon.Ctx) {
@@ -184,6 +186,9 @@ func c13Generate(c *mon.Ctx) {
 
 		return &c13Case{Op: "cmp", S: hx(a.X), T: hx(b.X), Class: a.Class}
 	})
+
+	// and again at the end of the shard, when the process has a history behind it
+	concBatches(c, c.N(4, 200), func(seed uint64) any { return &c13Case{Conc: seed + 50000} })
 }
 
 func c13Run(c *mon.Ctx, csAny any) {
